@@ -316,3 +316,18 @@ func assert(ok bool) {
 		panic("illegal state")
 	}
 }
+
+// whether variables / types / consts are declared at the top level of the block
+func declares(block *ast.BlockStmt) bool {
+	for _, stmt := range block.List {
+		switch s := stmt.(type) {
+		case *ast.AssignStmt:
+			if s.Tok == token.DEFINE {
+				return true
+			}
+		case *ast.DeclStmt:
+			return true
+		}
+	}
+	return false
+}
